@@ -1,6 +1,7 @@
 package main
 
 import (
+	"bytes"
 	"fmt"
 	"reflect"
 	"strconv"
@@ -922,7 +923,21 @@ func execOp(s *Sexp) string {
 				return "err"
 			}
 			lastHeaderMsg = badSliceHeaders(out.Elem())
-			return "ok " + FromReflect(out.Elem(), c.td).String()
+			res := FromReflect(out.Elem(), c.td).String()
+			if c.tag == "" && c.rt.Kind() != reflect.Ptr {
+				// the same value handed to Marshal by value (how it sits in the interface word differs by type shape)
+				d2, err := c.p.Marshal(nil, pv.Elem().Interface())
+				if err != nil {
+					return "byval-err"
+				}
+				if !bytes.Equal(d2, data) {
+					out2 := reflect.New(c.rt)
+					if err := c.p.Unmarshal(d2, out2.Interface()); err != nil || FromReflect(out2.Elem(), c.td).String() != res {
+						return "byval-differs " + hx(data) + " " + hx(d2)
+					}
+				}
+			}
+			return "ok " + res
 		})
 	case "app":
 		// (app cfg T tag V xPREFIX cap mode): Marshal(prefix-with-spare-capacity, v), by pointer or by value, twice re-using the buffer
@@ -988,9 +1003,23 @@ func execOp(s *Sexp) string {
 			if err := mutateInPlace(pv.Elem(), c.td, v2); err != nil {
 				return "bad-op " + err.Error()
 			}
-			d2, err := c.marshalPtr(pv)
+			// the second call re-uses the first call's buffer, as an encode loop does (no sizing pass at the top)
+			var d2 []byte
+			if c.tag == "" {
+				d2, err = c.p.Marshal(make([]byte, 0, len(d1)+1), pv.Interface())
+			} else {
+				d2, err = c.marshalPtr(pv)
+			}
 			if err != nil {
 				return "err"
+			}
+			d2 = append([]byte(nil), d2...)
+			d3, err := c.marshalPtr(pv)
+			if err != nil {
+				return "err"
+			}
+			if !bytes.Equal(d2, d3) && !multiEntryMaps(v2) {
+				return "reuse-differs " + hx(d2) + " " + hx(d3)
 			}
 			return "ok " + hx(d1) + " " + hx(d2)
 		})
